@@ -397,7 +397,7 @@ func c08History(c *Ctx, idx int) {
 func init() {
 	Register(&Property{
 		ID:            "C08",
-		Rule:          "failing texts generated per category and site - every builtin with every wrong argument count (also nested in multi-selects, in other calls' arguments, in expression references, three calls deep, and in never-evaluated branches), unknown names incl. near misses and ~250 names of builtins that other implementations or proposals define, expression references in value position and values in expression-reference position for every function and position, a wrong JSON type at every argument position, every invalid-value site (slice step 0, negative/non-integral counts and widths, pad strings, from_items shapes), undefined variables at top level/projections/filters/expression references/let bodies, every dynamic fault category raised at the first / a middle / the last element of each per-element construct (sort_by, max_by, min_by, group_by, map, projections, filters, multi-selects), division by zero and overflow per operator, two-fault combinations, syntax faults, plus seeded mutated expressions, plus call histories (a valid text searched first, then the same text decorated with runes that trimming removes but the grammar rejects; every prefix of a text shortest first, the text again, then extensions of it) - each run through Compile and through Search and Expression.Search on 13 documents (null, scalar, arrays, objects, fault-triggering, foreign Go values); checks per call: nil result with an error, exactly one exported category under errors.Is, non-empty text, category = the model's (single fault) or within the model's fault set (several), Compile and Search report the same static fault for every document, a compiled Expression never reports syntax/arity/unknown-function; non-trivial = the model expects an error on at least one document; distinct by text; static faults are also run against 15 top-level documents of standard-library types (raw JSON well-formed / truncated / empty, byte slices, readers, big numbers, typed nils); failing-marshalers stream: data values whose MarshalJSON / MarshalText fail with each exported error (as returned by the library, bare, wrapped once and twice, joined) and with errors of other packages, as the value, behind a pointer, nested, as a map key, through 12 expressions: exactly one category, never a static one, evaluation-failed or invalid-type",
+		Rule:          "failing texts generated per category and site - every builtin with every wrong argument count (also nested in multi-selects, in other calls' arguments, in expression references, three calls deep, and in never-evaluated branches), unknown names incl. near misses and ~250 names of builtins that other implementations or proposals define, expression references in value position and values in expression-reference position for every function and position, a wrong JSON type at every argument position, every invalid-value site (slice step 0, negative/non-integral counts and widths, pad strings, from_items shapes), undefined variables at top level/projections/filters/expression references/let bodies, every dynamic fault category raised at the first / a middle / the last element of each per-element construct (sort_by, max_by, min_by, group_by, map, projections, filters, multi-selects), division by zero and overflow per operator, two-fault combinations, syntax faults, plus seeded mutated expressions, plus call histories (a valid text searched first, then the same text decorated with runes that trimming removes but the grammar rejects; every prefix of a text shortest first, the text again, then extensions of it) - each run through Compile and through Search and Expression.Search on 13 documents (null, scalar, arrays, objects, fault-triggering, foreign Go values); checks per call: nil result with an error, exactly one exported category under errors.Is, non-empty text, category = the model's (single fault) or within the model's fault set (several), Compile and Search report the same static fault for every document, a compiled Expression never reports syntax/arity/unknown-function; non-trivial = the model expects an error on at least one document; distinct by text; static faults are also run against 15 top-level documents of standard-library types (raw JSON well-formed / truncated / empty, byte slices, readers, big numbers, typed nils); failing-marshalers stream: data values whose MarshalJSON / MarshalText fail with each exported error (as returned by the library, bare, wrapped once and twice, joined) and with errors of other packages, as the value, behind a pointer, nested, as a map key, through 12 expressions: exactly one category, never a static one, evaluation-failed or invalid-type; letters and digits of other alphabets (U+0100..U+03FF and 8 look-alikes) glued to an identifier, a function name and a variable are syntax faults for every document",
 		MinNontrivial: 500,
 		Streams: []Stream{
 			{Name: "sites", Setup: c08Setup, N: c08N, Run: c08Run, Exhaustive: true},
